@@ -70,7 +70,7 @@ def run_impl(sc):
                 kw["socket"] = prepared
             ws.connect(sc["url"], **kw)
             res = "ok"
-        except Exception as e:
+        except BaseException as e:
             c = exn_class(e)
             res = "raise:" + c.replace("BadStatus:None", "BadStatus:-1")
     finally:
